@@ -63,6 +63,10 @@ EvalV(ve, env, w) ==
     [] ve.k = "fresh" -> EvalV(ve.e, env, w)
     [] ve.k = "pk"   -> [v |-> Get(w, env, ve.n) + 1, w |-> w]           \* inc1(n) with inc1 := func(x int) int { return pkgInc(x) }
     [] ve.k = "idg"  -> [v |-> Get(w, env, ve.n), w |-> w]               \* idg(n) with idg := func(x int) int { return ident[int](x) }
+    [] ve.k = "idi"  -> [v |-> Get(w, env, ve.n), w |-> w]               \* idi(n) with idi := func(x int) int { return ident(x) } (implicit instantiation)
+    [] ve.k = "unn"  -> [v |-> 7, w |-> w]                               \* unn(n) with unn := func(int) int { return seven() } (unnamed parameter)
+    [] ve.k = "perr" -> [v |-> 0, w |-> w]                               \* b2i(ge(n) == nil) with ge := func(x int) error { return mkErr(x) }, mkErr returning (*myErr)(nil): a non-nil interface
+    [] ve.k = "vari" -> [v |-> 2, w |-> w]                               \* gv(n, n) with gv := func(xs ...int) int { return count(xs) }
     [] ve.k = "ln"   -> [v |-> 3, w |-> w]                               \* ln("abc") with ln := func(x string) int { return len(x) }
     [] ve.k = "cnv"  -> [v |-> Get(w, env, ve.n), w |-> w]               \* cnv(int64(n)) with cnv := func(x int64) int { return int(x) }
     [] ve.k = "neg" -> LET r == EvalV(ve.e, env, w) IN [v |-> 0 - r.v, w |-> r.w]
